@@ -41,6 +41,13 @@ def make_env(nbars, L, d, space, extras, late=False):
     bars = bar_events(G, contracts, base=64.0, spread=2.0, step=4.0)
     pos = extra_positions(G, L)
     ex = [EventNBBO(pos[pi], A, 300.0 + 8 * j, 302.0 + 8 * j) for j, pi in enumerate(extras)]
+    if late == "samemid":
+        # the extra quotes WIDEN the spread around the unchanged mid of the prevailing bar (a liquidity withdrawal): the mid does not
+        # move, the execution prices do
+        def mid_at(t):
+            m = [(e.bid_price + e.ask_price) / 2 for e in bars if e.contract is A and e.time <= t]
+            return m[-1]
+        ex = [EventNBBO(pos[pi], A, mid_at(pos[pi]) - 3.0 - j, mid_at(pos[pi]) + 3.0 + j) for j, pi in enumerate(extras)]
     evs = bars + ex
     if late == "revised":
         # every quote of contract A is followed by a REVISION carrying the identical stamp (added to the transmitter later):
@@ -186,6 +193,12 @@ def units(tier):
         for extras in [[]] + [[i] for i in range(npos)]:
             for d, space in ((0, "box"), (1, "disc1")):
                 out.append((nbars, L, d, space, extras, "markov"))
+    # extra quotes that widen the spread around an unchanged mid
+    for L in (0, 30):
+        npos = len(extra_positions(grid(nbars), L))
+        for extras in [[i] for i in range(npos)]:
+            for d, space in ((0, "box"), (1, "disc1")):
+                out.append((nbars, L, d, space, extras, "samemid"))
     # revised quotes (same stamp, inserted later) on a stream long enough (24+ events) for any unstable ordering to show
     for L in (0, 30, 4.1):
         npos = len(extra_positions(grid(8), L))
@@ -248,7 +261,7 @@ def run(tier, **kw):
     rep.set("rule", "one evaluation = one complete episode; enumerated: 5-bar stream (2 contracts, every bar a distinct price, spread 2) x latency "
                     "{0, 30s, 4.1s, 8.2s, 0.1s} x every subset of <= 1 (quick) / <= 2 (thorough) extra quotes over {t+1s, t+L, t+L+0.4s, t'-1s} of every consecutive "
                     "pair x delay {0,1,2,3} x {Box, Discrete with zero first allocation, Discrete with non-zero first allocation, Discrete whose flat allocation is not action 0} x all 3^4 "
-                    "action sequences over 3 pairwise-distinct actions, plus the latency > 0 configurations with price-free events added to the transmitter after the environment was built, configurations in which every quote of one contract is followed by a revision with the identical stamp (8 bars, 24+ events), and configurations under markov reset into a fold starting at the second timestep, and configurations whose transmitter was first used to build an environment with another latency (same environment reused across sequences via reset); non-trivial = "
+                    "action sequences over 3 pairwise-distinct actions, plus the latency > 0 configurations with price-free events added to the transmitter after the environment was built, configurations in which every quote of one contract is followed by a revision with the identical stamp (8 bars, 24+ events), and configurations whose extra quote widens the spread around the unchanged mid of the prevailing bar, configurations under markov reset into a fold starting at the second timestep, and configurations whose transmitter was first used to build an environment with another latency (same environment reused across sequences via reset); non-trivial = "
                     "distinct (allocations executed, trade prices) outcome with delay > 0 or an extra quote")
     rep.set("samples", [{"nbars": 5, "L": 30, "d": 2, "space": "disc1", "extras": [1], "seq": [0, 2, 1, 1]}])
     rep.assumptions = ["with delay > 0 the null action belongs to the space (Box bounds include 0)",
